@@ -33,6 +33,7 @@ import (
 	"os/exec"
 	"path/filepath"
 	"regexp"
+	"runtime"
 	"sort"
 	"strconv"
 	"strings"
@@ -433,6 +434,10 @@ type zzC17HTTP struct {
 	client *http.Client
 }
 
+// zzC17BatchSize is the number of unvalidated locations put into one
+// configuration in the inject scenario.
+const zzC17BatchSize = 8
+
 const zzC17BaseURL = "http://zzc17-base.example/base.txt"
 
 // zzC17NewHTTP starts a local list server; every http connection of the
@@ -554,6 +559,17 @@ func (s *zzC17Srv) lists() (ls []zzC17List) {
 	}
 
 	return ls
+}
+
+// configured reports whether a list with this URL is in the table.
+func (s *zzC17Srv) configured(url string) (ok bool) {
+	for _, l := range s.lists() {
+		if l.URL == url {
+			return true
+		}
+	}
+
+	return false
 }
 
 // leaks returns the sentinel numbers found in stored list files.
@@ -722,7 +738,14 @@ func (e *zzC17Env) sharedSrv(cfg []int, fresh bool) (s *zzC17Srv, err error) {
 // restore brings a shared server back to "only the base list".
 func (e *zzC17Env) restore(s *zzC17Srv) (ok bool) {
 	base := int64(-1)
-	for _, l := range s.lists() {
+	cur := s.lists()
+	if len(cur) == 1 && cur[0].URL == zzC17BaseURL && !cur[0].White {
+		_, _ = e.world.w.drain()
+
+		return true
+	}
+
+	for _, l := range cur {
 		if l.URL == zzC17BaseURL && !l.White && base < 0 {
 			base = l.ID
 
@@ -786,8 +809,15 @@ func (e *zzC17Env) run(v *zzC17Vec, entry string, rng *rand.Rand, fresh bool) (o
 		}
 
 		obs = append(obs, o)
-		st, resp = s.call(http.MethodPost, "/control/filtering/refresh", map[string]any{"whitelist": white})
-		obs = append(obs, zzC17Observe(w, s, "refresh", "refresh", "", st, resp))
+		// A refresh can only reach the location if it is in the list table
+		// now (accepted, or rejected but left behind).
+		if s.configured(url) {
+			st, resp = s.call(http.MethodPost, "/control/filtering/refresh", map[string]any{"whitelist": white})
+			obs = append(obs, zzC17Observe(w, s, "refresh", "refresh", "", st, resp))
+		} else if st == http.StatusOK {
+			return nil, url, fmt.Errorf("add_url answered 200 but %q is not configured", url)
+		}
+
 		if !e.restore(s) {
 			delete(e.shared, zzC17CfgKey(v.Cfg))
 			s.close()
@@ -815,42 +845,87 @@ func (e *zzC17Env) run(v *zzC17Vec, entry string, rng *rand.Rand, fresh bool) (o
 			obs = append(obs, zzC17Observe(w, s, "set_url_enable", "seturl", url, st, resp))
 		}
 
-		st, resp = s.call(http.MethodPost, "/control/filtering/refresh", map[string]any{"whitelist": false})
-		obs = append(obs, zzC17Observe(w, s, "refresh", "refresh", "", st, resp))
+		if s.configured(url) {
+			st, resp = s.call(http.MethodPost, "/control/filtering/refresh", map[string]any{"whitelist": false})
+			obs = append(obs, zzC17Observe(w, s, "refresh", "refresh", "", st, resp))
+		} else if st == http.StatusOK {
+			return nil, url, fmt.Errorf("set_url answered 200 but %q is not configured", url)
+		}
+
 		if !e.restore(s) {
 			delete(e.shared, zzC17CfgKey(v.Cfg))
 			s.close()
 		}
 	case "inject":
-		// The location is in the configuration when the server starts, as if
-		// read from the YAML file: nothing validated it.
-		lists := []FilterYAML{{Enabled: true, URL: url, Name: "injected", Filter: Filter{ID: 7}}}
-		var block, allow []FilterYAML
-		if white {
-			allow = lists
-		} else {
-			block = lists
-		}
-
-		dd := e.newDataDir()
-		defer func() { _ = os.RemoveAll(dd) }()
-
-		var s *zzC17Srv
-		s, err = zzC17NewSrv(dd, e.patterns(v.Cfg, rng), block, allow, e.http.client)
+		var all [][]zzC17Obs
+		all, _, err = e.runInject([]*zzC17Vec{v}, []*rand.Rand{rng})
 		if err != nil {
 			return nil, url, err
 		}
-		defer s.close()
 
-		s.start()
-		obs = append(obs, zzC17Observe(w, s, "load_config", "inject", url, 0, ""))
-		st, resp := s.call(http.MethodPost, "/control/filtering/refresh", map[string]any{"whitelist": white})
-		obs = append(obs, zzC17Observe(w, s, "refresh", "refresh", "", st, resp))
+		obs = all[0]
 	default:
 		return nil, url, fmt.Errorf("bad entry %q", entry)
 	}
 
 	return obs, url, nil
+}
+
+// runInject starts one server whose configuration already contains the
+// locations of all the vectors (same pattern list), as if read from the YAML
+// file -- nothing validated them -- and refreshes both list tables.  Every
+// vector gets the same observations; the bound of the batch is the union of
+// the vectors' bounds (zzC17JudgeBatch).
+func (e *zzC17Env) runInject(vs []*zzC17Vec, rngs []*rand.Rand) (obs [][]zzC17Obs, urls []string, err error) {
+	w := e.world
+	_, _ = w.w.drain()
+	var block, allow []FilterYAML
+	for i, v := range vs {
+		url := w.renderLoc(v.Loc, rngs[i])
+		urls = append(urls, url)
+		white := rngs[i] != nil && rngs[i].Intn(3) == 0
+		l := FilterYAML{Enabled: true, URL: url, Name: "injected", Filter: Filter{ID: 7 + i}}
+		if white {
+			allow = append(allow, l)
+		} else {
+			block = append(block, l)
+		}
+	}
+
+	dd := e.newDataDir()
+	defer func() { _ = os.RemoveAll(dd) }()
+
+	s, err := zzC17NewSrv(dd, e.patterns(vs[0].Cfg, rngs[0]), block, allow, e.http.client)
+	if err != nil {
+		return nil, urls, err
+	}
+	defer s.close()
+
+	s.start()
+	one := []zzC17Obs{zzC17Observe(w, s, "load_config", "inject", strings.Join(urls, " "), 0, "")}
+	for _, white := range []bool{false, true} {
+		st, resp := s.call(http.MethodPost, "/control/filtering/refresh", map[string]any{"whitelist": white})
+		one = append(one, zzC17Observe(w, s, "refresh", "refresh", "", st, resp))
+	}
+
+	for range vs {
+		obs = append(obs, one)
+	}
+
+	return obs, urls, nil
+}
+
+// zzC17Union is the vector whose bounds are the unions of the batch's.
+func zzC17Union(vs []*zzC17Vec) (u *zzC17Vec) {
+	u = &zzC17Vec{Cfg: vs[0].Cfg}
+	for _, v := range vs {
+		u.Add = append(u.Add, v.Add...)
+		u.SetURL = append(u.SetURL, v.SetURL...)
+		u.Inject = append(u.Inject, v.Inject...)
+		u.Refresh = append(u.Refresh, v.Refresh...)
+	}
+
+	return u
 }
 
 // zzC17Judge compares the observations of a scenario with the vector.
@@ -923,7 +998,16 @@ func zzC17Tier() (tier string) {
 
 var zzC17LogOnce sync.Once
 
-func zzC17Quiet() { zzC17LogOnce.Do(func() { log.SetOutput(io.Discard) }) }
+// zzC17Quiet silences the package's logging and limits the scheduler to two
+// threads: the code under test forces a full garbage collection at every
+// engine rebuild (debug.FreeOSMemory in initFiltering), whose cost grows with
+// the number of Ps (measured: 2.6 times faster with 2 than with 16).
+func zzC17Quiet() {
+	zzC17LogOnce.Do(func() {
+		log.SetOutput(io.Discard)
+		runtime.GOMAXPROCS(2)
+	})
+}
 
 // zzC17Setup builds the spec's tree under VERIF_C17_WORK and changes into
 // the spec's working directory.
@@ -1017,8 +1101,102 @@ func TestZZVerifC17Replay(t *testing.T) {
 	defer out.close()
 
 	var e *zzC17Env
-	n, steps, bad, positive, accepted, panics := 0, 0, 0, 0, 0, 0
+	n, steps, bad, positive, accepted, panics, batches := 0, 0, 0, 0, 0, 0, 0
 	perEntry := map[string]int{}
+	micros := map[string]int64{}
+
+	// single runs one scenario, judges it and reproduces a disagreement in
+	// isolation (fresh server, same spelling) before reporting it.
+	single := func(v *zzC17Vec, entry string) {
+		n++
+		perEntry[entry]++
+		t0 := time.Now()
+		obs, url, err := e.run(v, entry, rand.New(rand.NewSource(v.Var)), false)
+		micros[entry] += time.Since(t0).Microseconds()
+		if err != nil {
+			out.put(map[string]any{"kind": "skip", "idx": v.Idx, "entry": entry, "err": err.Error(), "url": url})
+
+			return
+		}
+
+		steps += len(obs)
+		for _, o := range obs {
+			if o.Status == http.StatusOK && (o.Step == "add_url" || o.Step == "set_url") {
+				accepted++
+			}
+		}
+
+		kind, what, pos := zzC17Judge(e, v, obs)
+		positive += pos
+		if kind == "" {
+			return
+		}
+
+		if kind == "panic" {
+			panics++
+		}
+
+		obs2, url2, err2 := e.run(v, entry, rand.New(rand.NewSource(v.Var)), true)
+		kind2, what2 := "", ""
+		if err2 == nil {
+			kind2, what2, _ = zzC17Judge(e, v, obs2)
+		}
+
+		if kind2 != kind {
+			out.put(map[string]any{"kind": "flaky", "first": kind, "second": kind2, "what": what, "idx": v.Idx,
+				"entry": entry, "url": url, "obs": obs})
+
+			return
+		}
+
+		if kind == "bad" {
+			bad++
+		}
+
+		out.put(map[string]any{"kind": kind, "what": what2, "idx": v.Idx, "entry": entry, "url": url2,
+			"vec": v, "obs": obs2, "patterns": e.patterns(v.Cfg, nil)})
+	}
+
+	// Inject scenarios of one pattern list are run in batches: one server
+	// start and one refresh for several unvalidated locations.  Anything
+	// outside the union of the bounds sends every vector of the batch through
+	// single().
+	batch := []*zzC17Vec{}
+	flush := func() {
+		if len(batch) == 0 {
+			return
+		}
+
+		vs := batch
+		batch = []*zzC17Vec{}
+		rngs := make([]*rand.Rand, len(vs))
+		for i, v := range vs {
+			rngs[i] = rand.New(rand.NewSource(v.Var))
+		}
+
+		t0 := time.Now()
+		obs, _, err := e.runInject(vs, rngs)
+		micros["inject"] += time.Since(t0).Microseconds()
+		kind := "err"
+		if err == nil {
+			var pos int
+			kind, _, pos = zzC17Judge(e, zzC17Union(vs), obs[0])
+			if kind == "" {
+				n += len(vs)
+				perEntry["inject"] += len(vs)
+				steps += len(obs[0])
+				positive += pos
+				batches++
+
+				return
+			}
+		}
+
+		for _, v := range vs {
+			single(v, "inject")
+		}
+	}
+
 	zzReadNDJSON(t, "VERIF_IN", func(line []byte) {
 		v := &zzC17Vec{}
 		if err := json.Unmarshal(line, v); err != nil {
@@ -1041,55 +1219,23 @@ func TestZZVerifC17Replay(t *testing.T) {
 		}
 
 		for _, entry := range v.Entries {
-			n++
-			perEntry[entry]++
-			rng := rand.New(rand.NewSource(v.Var))
-			obs, url, err := e.run(v, entry, rng, false)
-			if err != nil {
-				out.put(map[string]any{"kind": "skip", "idx": v.Idx, "entry": entry, "err": err.Error(), "url": url})
-
-				continue
-			}
-
-			steps += len(obs)
-			for _, o := range obs {
-				if o.Status == http.StatusOK && (o.Step == "add_url" || o.Step == "set_url") {
-					accepted++
+			if entry == "inject" {
+				if len(batch) > 0 && (zzC17CfgKey(batch[0].Cfg) != zzC17CfgKey(v.Cfg) || len(batch) >= zzC17BatchSize) {
+					flush()
 				}
-			}
 
-			kind, what, pos := zzC17Judge(e, v, obs)
-			positive += pos
-			if kind == "" {
-				continue
-			}
-
-			if kind == "panic" {
-				panics++
-			}
-
-			// Reproduce in isolation: a fresh server, the same spelling.
-			obs2, url2, err2 := e.run(v, entry, rand.New(rand.NewSource(v.Var)), true)
-			kind2, what2, _ := "", "", 0
-			if err2 == nil {
-				kind2, what2, _ = zzC17Judge(e, v, obs2)
-			}
-
-			if kind2 != kind {
-				out.put(map[string]any{"kind": "flaky", "first": kind, "second": kind2, "what": what, "idx": v.Idx,
-					"entry": entry, "url": url, "obs": obs})
+				batch = append(batch, v)
 
 				continue
 			}
 
-			if kind == "bad" {
-				bad++
-			}
-
-			out.put(map[string]any{"kind": kind, "what": what2, "idx": v.Idx, "entry": entry, "url": url2,
-				"vec": v, "obs": obs2, "patterns": e.patterns(v.Cfg, nil)})
+			single(v, entry)
 		}
 	})
+
+	if e != nil {
+		flush()
+	}
 
 	if e != nil {
 		for _, s := range e.shared {
@@ -1101,7 +1247,7 @@ func TestZZVerifC17Replay(t *testing.T) {
 	}
 
 	out.put(map[string]any{"kind": "summary", "n": n, "steps": steps, "bad": bad, "positive": positive,
-		"accepted": accepted, "panics": panics, "per_entry": perEntry})
+		"accepted": accepted, "panics": panics, "per_entry": perEntry, "micros": micros, "inject_batches": batches})
 }
 
 // ---------------------------------------------------------------- direction B
@@ -1467,9 +1613,11 @@ func TestZZVerifC17Trace(t *testing.T) {
 		}
 
 		out.put(map[string]any{"act": "reset", "pats": globs, "cwd": cwd, "names": zzC17Names(nameSets...),
-			"concrete": map[string]any{"root": root, "cwd": "/" + zzC17Key(cwd), "patterns": pats}})
+			"concrete": map[string]any{"root": root, "cwd": "/" + zzC17Key(cwd), "patterns": pats,
+				"dirs": rel(dirs), "files": rel(files)}})
 
 		byURL := map[string]zzC17Loc{}
+		prevLeaks := map[int]bool{}
 		for _, st := range hist {
 			_, _ = world.w.drain()
 			rec := map[string]any{"act": st.act}
@@ -1552,7 +1700,9 @@ func TestZZVerifC17Trace(t *testing.T) {
 			}
 
 			lists := []zzC17Loc{}
+			listURLs := []string{}
 			for _, x := range srv.lists() {
+				listURLs = append(listURLs, x.URL)
 				if lc, ok := byURL[x.URL]; ok {
 					lists = append(lists, lc)
 				} else {
@@ -1566,10 +1716,22 @@ func TestZZVerifC17Trace(t *testing.T) {
 			}
 
 			rec["opened"] = opened
-			rec["stored"] = world.marksToPaths(srv.leaks())
+			// Only what this step added to the stored lists is attributed to it.
+			fresh := []int{}
+			now := map[int]bool{}
+			for _, k := range srv.leaks() {
+				now[k] = true
+				if !prevLeaks[k] {
+					fresh = append(fresh, k)
+				}
+			}
+
+			prevLeaks = now
+			rec["stored"] = world.marksToPaths(fresh)
 			rec["lists"] = lists
 			rec["status"] = status
-			rec["concrete"] = map[string]any{"url": url, "root": root, "cwd": "/" + zzC17Key(cwd), "patterns": pats}
+			rec["concrete"] = map[string]any{"url": url, "root": root, "cwd": "/" + zzC17Key(cwd), "patterns": pats,
+				"list_urls": listURLs}
 			out.put(rec)
 		}
 
@@ -1595,9 +1757,21 @@ func TestZZVerifC17Redo(t *testing.T) {
 		Act      string   `json:"act"`
 		URL      string   `json:"url"`
 		Patterns []string `json:"patterns"`
+		Dirs     []string `json:"dirs"`
+		Files    []string `json:"files"`
 	}{}
 	if err := json.Unmarshal([]byte(zzGetenv("VERIF_C17_REDO")), &req); err != nil {
 		t.Skip("no VERIF_C17_REDO")
+	}
+
+	if _, serr := os.Stat(req.Root); serr != nil {
+		// Replaying a stored record: the tree is gone, build it again.
+		world, werr := zzC17BuildWorld(req.Root, req.Dirs, req.Files, false)
+		if werr != nil {
+			t.Fatalf("rebuilding tree: %v", werr)
+		}
+
+		world.w.close()
 	}
 
 	dirs := []string{}
@@ -1653,5 +1827,9 @@ func TestZZVerifC17Redo(t *testing.T) {
 	}
 
 	real, _ := watch.drain()
+	if real == nil {
+		real = []string{}
+	}
+
 	out.put(map[string]any{"kind": "redo", "status": status, "opened": real})
 }
